@@ -58,7 +58,7 @@ def generate(rng, tier, focus):
         elif k == "set_resids":
             op["scalar"] = rng.random() < 0.4
         elif k == "view":
-            op["how"] = rng.choice(["index", "iter", "neg_index"])
+            op["how"] = rng.choice(["index", "iter", "neg_index", "np_index"])
         elif k == "view_assign":
             # (not the residue number: one atom of a residue numbered apart from the others is a state the library refuses
             #  to copy -- residues are defined by a common number)
@@ -447,7 +447,11 @@ def execute(trace, ctx):
                             M.track("atom", a, [o["cells"][j]], top=o["top"], note="view", count_top=False)
                 else:
                     j = op["pick"] % n
-                    a = o["obj"][j - n] if op["how"] == "neg_index" else o["obj"][j]
+                    if op["how"] == "np_index":
+                        a = o["obj"][np.int64(j)]              # an index taken from an array (argmin, where, arange)
+                        ctx.probe("molecule_indexed_with_numpy_integer")
+                    else:
+                        a = o["obj"][j - n] if op["how"] == "neg_index" else o["obj"][j]
                     M.track("atom", a, [o["cells"][j]], top=o["top"], note="view", count_top=False)
                 ctx.op(kind, op["how"])
                 verify(ctx, M, set(), None, kind)
@@ -455,7 +459,7 @@ def execute(trace, ctx):
                 k = mols[op["pick"] % len(mols)]
                 o = M.objs[k]
                 j = (op["pick"] // 7) % len(o["cells"])
-                a = o["obj"][j]
+                a = o["obj"][np.intp(j)] if op["pick"] % 5 == 0 else o["obj"][j]
                 c = o["cells"][j]
                 f = op["field"]
                 if f == "position":
